@@ -4,10 +4,11 @@
     is not executed and fails, every later call works; [Stop k] = ctrl-c arrives on entering the
     (k+1)-th call: OcflRepo::close).  "new" is the main object of the fault-free run from the same
     tree.  The theorems hold for EVERY position (no bound) and every tree satisfying [commit_pre];
-    [same_type] (the commit does not change the inventory type) excludes the declaration swap of an
-    upgrade - the known finding witnessed below. *)
+    [same_type] (the commit does not change the inventory type) restricts the theorems to commits
+    without declaration swap; the type-changing commit (upgrade of an existing object, rollback of f6ecfaf)
+    is covered by the regression Example below and by the correspondence check at every position. *)
 From Coq Require Import List NArith Bool.
-From Rocfl Require Import Base.Bytes Model.FsOps Model.FsTree Model.Commit Model.KnownC04
+From Rocfl Require Import Base.Bytes Model.FsOps Model.FsTree Model.Commit 
   Proofs.CommitFacts Proofs.CommitPre Proofs.CommitPhases Corr.CheckCommit.
 Import ListNotations.
 
@@ -64,19 +65,7 @@ Example C04_nonvacuous :
      (0,1); (0,1); (0,1); (0,1); (0,1); (0,1); (0,1); (0,1); (0,1); (0,1); (1,1); (1,1); (1,1); (1,1); (1,0); (1,0)]%N.
 Proof. vm_compute. repeat split. Qed.
 
-(** * known finding (classifier in Model/KnownC04.v), witnessed on a concrete instance *)
-
-(** the commit that completes an upgrade (the staged inventory requires 0=ocfl_object_1.1, the object
-    declares 1.0): a fault at the creation of the new declaration (position 26), at its write (27) or
-    at the removal of the old one (28) returns an error with the main object neither old nor new and
-    rejected by the validator *)
-Lemma c04_upgrade_declaration_fault_refuted :
-  exists k,
-    c04_upgrade_declaration_fault (commit ex_cfg) ex_cfg (ex_tree ex_d11) k = true /\
-    predict PCommit ex_cfg (ex_tree ex_d11) (Fault k) = (2, 1)%N.
-Proof. exists 26%nat. vm_compute. split; reflexivity. Qed.
-
-(** * regression witnesses of the two repaired findings (9d3a720, 7857f07 + 9f4b67d): on the concrete instances
+(** * regression witnesses of the repaired findings (9d3a720, 7857f07 + 9f4b67d, f6ecfaf): on the concrete instances
     the retried command now yields the fault-free result at EVERY fault position that left the old object
     and a parseable staged inventory *)
 
@@ -106,3 +95,21 @@ Example C04_retry_after_staged_declaration_fault :
                  && obj_validb ex_cfg (run_tree (retry_upgrade ex_cfg) t1 NoInj) ex_mo))
           (List.seq 0 40) = true.
 Proof. vm_compute. reflexivity. Qed.
+
+(** the commit that completes the upgrade of an existing object (the staged inventory requires 0=ocfl_object_1.1,
+    the object declares 1.0): at EVERY fault position the main object is old or new (class 0 or 1) - in particular
+    at the creation (26), the write (27) of the new declaration and the removal of the old one (28) - and after a
+    fault that left the old object and a parseable staged inventory the retried commit yields the valid
+    fault-free object *)
+Example C04_upgrade_existing_object_atomic :
+  commit_pre_b ex_cfg (ex_tree ex_d11) (ex_inv ex_d11) = true /\
+  forallb (fun k =>
+             let r := predict PCommit ex_cfg (ex_tree ex_d11) (Fault k) in
+             (N.eqb (fst r) 0 || N.eqb (fst r) 1)
+             && (let t1 := run_tree (commit ex_cfg) (ex_tree ex_d11) (Fault k) in
+                 negb (same_underb ex_mo t1 (ex_tree ex_d11)) || negb (staged_inv_ok ex_cfg t1)
+                 || (N.eqb (res_code (fst (run (commit ex_cfg) t1 NoInj))) 0
+                     && same_underb ex_mo (run_tree (commit ex_cfg) t1 NoInj) (run_tree (commit ex_cfg) (ex_tree ex_d11) NoInj)
+                     && obj_validb ex_cfg (run_tree (commit ex_cfg) t1 NoInj) ex_mo)))
+          (List.seq 0 50) = true.
+Proof. vm_compute. split; reflexivity. Qed.
